@@ -135,6 +135,8 @@ def get_attr(it, o, name):
         if name == "__func__":
             return o.func
         return get_attr(it, o.func, name)
+    if isinstance(o, Builtin) and o.name == "dict" and name == "fromkeys":
+        return Builtin("dict.fromkeys", lambda keys, value=None: {it.hashable(k): value for k in it.iterate(keys)})
     if isinstance(o, Builtin) and o.name in ("set", "frozenset") and name in ("union", "intersection"):
         from .symcoll import set_algebra
         return Builtin(f"set.{name}", lambda *a: set_algebra(it, name, list(a)))
@@ -187,6 +189,13 @@ def _native_method(it, o, name):
             raise PyRaise(it.make_exc("AttributeError", name))
 
         def call(*args, **kwargs):
+            if name == "pop" and isinstance(o, set) and not args:
+                # set.pop() returns an unspecified element: canonical choice, reversed on demand
+                if not o:
+                    raise PyRaise(it.make_exc("KeyError", "pop from an empty set"))
+                items = it.iterate(o)
+                o.discard(items[0])
+                return items[0]
             for a in args:
                 if is_symbolic(a) and not isinstance(a, SOpq):
                     if name in ("append", "extend", "insert", "setdefault", "get", "update") and not (
@@ -309,6 +318,8 @@ def set_attr(it, o, name, v):
     if isinstance(o, ModuleRef):
         it.ctx.mod_globals(o.module)[name] = v
         return
+    if isinstance(o, SOpq) and getattr(it.e, "opaque_setattr", {}).get(o.kind):
+        return it.e.opaque_setattr[o.kind](it, o, name, v)
     if isinstance(o, Sym) and hasattr(o, "setattr"):
         return o.setattr(it, name, v)
     raise Unsupported(f"attribute store on {o!r}")
